@@ -35,6 +35,16 @@ SMALL = {"P1": ("odd", "dint_s"), "P2": ("plain", "inner1.x"), "P3": ("ctl_dint"
 def write_cases(proj, tier):
     """(text, value, class) triples derived from the model."""
     out = []
+    # slices of a long SINT array whose byte size sweeps every value around one, two and three fragments (both connection sizes when the array is long enough):
+    # odd sizes, exact multiples of the fragment payload, one byte more and one byte less
+    long_sint = next((tg for tg in proj.user_tags() if tg.typ == "SINT" and len(tg.dims) == 1 and tg.dims[0] >= 1500 and not tg.scope), None)
+    if long_sint is not None:
+        ns = set()
+        for S in (500, 4000):
+            for k in (1, 2, 3):
+                ns |= set(range(k * (S - 16) - 44, k * (S - 16) + 6))
+        for n in sorted(x for x in ns if 2 <= x <= long_sint.dims[0] - 3):
+            out.append((f"{long_sint.name}[3]{{{n}}}", [((i * 5 + n) % 200) - 100 for i in range(n)], "atomic:slice-sweep"))
     for text, cls in Q.read_requests(proj, bits="boundary"):
         try:
             t = Q.parse_request(proj, text)
